@@ -854,14 +854,16 @@ pub fn handle_promise_race_settle(
     // First one wins - mark as settled
     state.settled.set(true);
 
-    // Cancel all losing orders (all order_ids except the winner's)
-    for (i, order_id) in state.input_order_ids.iter().enumerate() {
-        if i != winner_index
-            && let Some(id) = order_id
-        {
-            interp.cancelled_orders.push(*id);
+    // Cancel all losing orders: every order other than the winner's, once each
+    // (the same promise may be listed more than once in the race)
+    let winner_id = state.input_order_ids.get(winner_index).copied().flatten();
+    let mut losers: Vec<crate::OrderId> = Vec::new();
+    for id in state.input_order_ids.iter().flatten() {
+        if Some(*id) != winner_id && !losers.contains(id) {
+            losers.push(*id);
         }
     }
+    interp.cancelled_orders.extend(losers);
 
     let result_promise = state.result_promise.cheap_clone();
 
